@@ -17,6 +17,9 @@ After that the pair is driven by one op per call (same textual ops as extract/c0
                       (llc.collect() without aggregation; LlcPair calls the real llc.collect())
     inject X <pdu>    wire(X->other).append(encode(<pdu>))        (fault injection)
 op() returns (out, state) strings in the format of the model driver (without the ghost part).
+An exception of the implementation that is not the documented nfc.llcp.Error of the call (nor the
+RuntimeError guard of recv, which is in the model) is caught, reported as `<op> crash <Class>` and
+remembered in .crashed; the caller records it as a violation and abandons the history.
 Every PDU that crosses is reported to an optional observer (the monitor).
 """
 import collections
@@ -59,6 +62,8 @@ def pdu_from_str(s, dsap, ssap):
 
 
 class Pair(object):
+    crashed = None      # (exception class name, op, message) of the first undocumented exception raised by the implementation
+
     def __init__(self, rwa, miua, rwb, miub, observer=None):
         self.observer = observer
         self.cfg = (rwa, miua, rwb, miub)
@@ -202,11 +207,23 @@ class Pair(object):
                 raise ValueError(line)
         except LlcpError as e:
             out = '%s err LlcpError:%d' % ({'pollacks': 'poll'}.get(cmd, cmd), e.errno)
-        except RuntimeError:
-            out = '%s err RuntimeError' % cmd
-            if self.observer:
-                self.observer.runtime_error(sd, cmd)
-        return out, self.state()
+        except RuntimeError as e:
+            if cmd == 'recv':          # the documented "recv_confs > recv_win" guard of DataLinkConnection.recv (in the model)
+                out = '%s err RuntimeError' % cmd
+                if self.observer:
+                    self.observer.runtime_error(sd, cmd)
+            else:
+                self.crashed = (type(e).__name__, cmd, str(e)[:200])
+                out = '%s crash %s' % (cmd, type(e).__name__)
+        except Exception as e:     # anything else is not a documented outcome of the call
+            self.crashed = (type(e).__name__, cmd, str(e)[:200])
+            out = '%s crash %s' % (cmd, type(e).__name__)
+        try:
+            st = self.state()
+        except Exception as e:
+            self.crashed = self.crashed or (type(e).__name__, 'state', str(e)[:200])
+            st = '?'
+        return out, st
 
 
 class LlcPair(Pair):
